@@ -798,3 +798,7 @@ def replay(ctx, payload):
     if outs:
         print('model run =', outs[1][:4000])
     return 0 if outs and outs[0].replace(' ', '') == '(true,true)' else 1
+
+
+def gen_tables(ctx):
+    common.source_tie('C11')
